@@ -20,7 +20,19 @@ ASSUMPTIONS = [
 CONFIGURED = [None, -5, -0.5, 0, 0.0005, 0.5, 0.999, 1, 1.001, 5, 6, 9.999, 10, 10.001, 30, 2, 0.0]
 HINTS = [None, '-1', '0', '0.5', '1', '499', '500', '999', '999.999', '1000', '1000.001', '1001',
          '4999', '5000', '5001', '9999', '10000', '10001', '1000000000', '1500.5', '2e3', '-510',
-         '0.0', '-0.0', '1e-3', '  750  ', '+2500', '1_500']
+         '0.0', '-0.0', '1e-3', '  750  ', '+2500', '1_500',
+         # not numbers: no usable hint (the value of the reserved key is whatever the Proxy Adapter sent)
+         'abc', '', '0x10', '1,5', '12ms']
+
+
+def hint_value(h):
+    """the number of milliseconds the hint asks for, None when there is no (usable) hint"""
+    if h is None:
+        return None
+    try:
+        return Fraction(float(h))
+    except ValueError:
+        return None
 
 
 def init_line(kind, hint, outcome):
@@ -32,7 +44,7 @@ def init_line(kind, hint, outcome):
     toks = ['10000010c3e4d0462', meth, 'S', 'ARI.version', 'S', version]
     if hint is not None:
         from urllib.parse import quote_plus
-        toks += ['S', 'keepalive_hint.millis', 'S', quote_plus(hint)]
+        toks += ['S', 'keepalive_hint.millis', 'S', quote_plus(hint) if hint != '' else '$']
     return '|'.join(toks) + '\r\n'
 
 
@@ -52,12 +64,16 @@ def run_impl(kind, c, hint, outcome):
             srv = fixture.start_meta(env, ad, keep_alive=c)
         before = srv.keep_alive
         fixture.drain(srv)
-        srv.on_received_request(init_line(kind, hint, outcome))
+        escaped = None
+        try:
+            srv.on_received_request(init_line(kind, hint, outcome))
+        except Exception as ex:      # nothing may come out of the request dispatcher
+            escaped = repr(ex)
         msgs = fixture.drain(srv)
         ka = srv.keep_alive
         ska = fixture.sender_keepalive(fixture.find_sender(srv))
         inited = any(cl[0] == 'initialize' for cl in ad.calls)
-    return before, ka, ska, msgs, inited
+    return before, ka, ska, msgs, inited, escaped
 
 
 def close(a, b):
@@ -154,9 +170,9 @@ def cases(ctx):
 
 
 def one(ctx, kind, c, hint, outcome):
-    before, ka, ska, msgs, inited = run_impl(kind, c, hint, outcome)
+    before, ka, ska, msgs, inited, escaped = run_impl(kind, c, hint, outcome)
     return {'kind': kind, 'configured': c, 'hint': hint, 'outcome': outcome,
-            'before': before, 'ka': ka, 'sender_ka': ska, 'msgs': msgs, 'inited': inited}
+            'before': before, 'ka': ka, 'sender_ka': ska, 'msgs': msgs, 'inited': inited, 'escaped': escaped}
 
 
 def run(ctx, res):
@@ -171,7 +187,7 @@ def run(ctx, res):
     calls = []
     runs = []
     for idx, (c, h) in enumerate(cs):
-        hv = None if h is None else Fraction(float(h))
+        hv = hint_value(h)
         # the full outcome matrix on the grid; random cases rotate through it
         kos = kinds_outcomes if idx < len(CONFIGURED) * (len(HINTS) + 3) else [kinds_outcomes[idx % 6]]
         for kind, outcome in kos:
@@ -183,6 +199,9 @@ def run(ctx, res):
         res.evaluations += 1
         res.traces += 1
         case = {'kind': r['kind'], 'configured': c, 'hint': h, 'init_outcome': r['outcome']}
+        if r['escaped']:
+            res.oracle_violations.append({'case': case, 'detail': 'an exception escaped the request dispatcher while handling the init request: %s' % r['escaped'],
+                                          'key': {'kind': 'init_crashed', 'hint': 'malformed' if (h is not None and hv is None) else 'number'}})
         if sx.is_err(o):
             res.disagreements.append({'case': case, 'model': o, 'impl': r['ka'], 'relation': 'model call failed'})
             continue
@@ -233,7 +252,7 @@ def search(ctx, res):
         for h in hs:
             for kind, outcome in (('data', 'ok'), ('metadata', 'ok'), ('metadata', 'refused'), ('data', 'error')):
                 r = one(ctx, kind, c, h, outcome)
-                hv = None if h is None else Fraction(float(h))
+                hv = hint_value(h)
                 for obs, what in ((r['ka'], 'server.keep_alive'), (r['sender_ka'], 'writer interval')):
                     msg = oracle(c, hv, obs)
                     if msg:
@@ -245,7 +264,9 @@ def search(ctx, res):
 def replay(ctx, data):
     case = data['case']
     r = one(ctx, case['kind'], case['configured'], case['hint'], case['init_outcome'])
-    hv = None if case['hint'] is None else Fraction(float(case['hint']))
+    hv = hint_value(case['hint'])
+    if r['escaped']:
+        return True, 'an exception escaped the request dispatcher: %s' % r['escaped']
     for obs, what in ((r['ka'], 'server.keep_alive'), (r['sender_ka'], 'writer interval')):
         msg = oracle(case['configured'], hv, obs)
         if msg:
